@@ -66,6 +66,8 @@ def gm_state(it, gm, key):
     for k, pres, val in st:
         if k is key:
             return pres, val
+    if getattr(it, "case_stream", None):
+        return False, None  # stream cases start from EMPTY maps (one template, one context)
     pres = it.ctx.fresh_bool(gm.fields["name"] + "_has_root")
     # the stored context is either the current one or some other context / instance
     same = it.ctx.fresh_bool(gm.fields["name"] + "_by_current")
@@ -157,34 +159,34 @@ def expected_event(it, obj, access, kind):
     return "ok", (root if access in (W, P) else None), (root if kind in ("variable", "temporary") else None)
 
 
-def stream_visit_model(it, ctx, operation):
-    """a sequential context WITH an always-expression: its visit_objects delivers
-    the events of the hoisted concurrent block and of the process alike.  In the
-    emitted architecture these are two drivers (a concurrent block and a
-    process): a root written from both, or a process Variable used in the
-    always-expression, must be rejected."""
-    objs = {}
-    accepted = True
-    try:
-        for origin, kind, access, rootname in it.case_stream:
-            if rootname not in objs:
-                objs[rootname] = mk_obj(kind, False)
-            o = SObj(objs[rootname].cls, _root=objs[rootname], _name="n", _ref_spec=[Opaque("slice")])
-            it.call(operation, [o, access], {})
-    except PyExc as e:
-        if e.cls is not AssertionError:
-            raise
-        accepted = False
-    it.ctx.prove(QUAL + "#always-expression-is-a-separate-driver", not accepted)
-    if not accepted:
-        raise PyExc(AssertionError, (), where="check_usage")
+def _stream_deliver(it, operation, origins):
+    """deliver the events of the case's stream that come from `origins` ('always' = the hoisted concurrent block,
+    'process' = the body of the sequential context)"""
+    objs = it.__dict__.setdefault("stream_objs", {})
+    for origin, kind, access, rootname in it.case_stream:
+        if origin not in origins:
+            continue
+        if rootname not in objs:
+            objs[rootname] = mk_obj(kind, False)
+        o = SObj(objs[rootname].cls, _root=objs[rootname], _name="n", _ref_spec=[Opaque("slice")])
+        it.call(operation, [o, access], {})
     return None
+
+
+def stream_always_model(it, ctx, operation):
+    # Context.visit_objects of the always expression (an ir.Concurrent) visited on its own
+    return _stream_deliver(it, operation, ("always",))
+
+
+def stream_sequential_model(it, ctx, operation, include_always_expr=True):
+    """a sequential context WITH an always-expression: Sequential.visit_objects delivers the events of the hoisted
+    concurrent block (unless excluded) and of the process.  In the emitted architecture these are two drivers (a concurrent
+    block and a process): a root written from both, or a process Variable used in the always-expression, must be rejected."""
+    return _stream_deliver(it, operation, ("always", "process") if include_always_expr else ("process",))
 
 
 def ctx_visit_model(it, ctx, operation):
     """ctx.visit_objects(check_usage): here ONE arbitrary event (the per-event contract)"""
-    if getattr(it, "case_stream", None):
-        return stream_visit_model(it, ctx, operation)
     kind, view, access = it.case_event
     obj = mk_obj(kind, view)
     writer, user = it.ghost_maps[0], it.ghost_maps[1]
@@ -227,12 +229,22 @@ class ContextLoop(C.LoopSpec):
     eval_iterable = False
 
     def has_next(self, it, frame, st):
+        if getattr(it, "case_stream", None):
+            return True  # exactly the one sequential context of the stream case
         return it.ctx.fresh_bool("more_contexts")
 
     def next_item(self, it, frame, st):
+        if getattr(it, "case_stream", None):
+            return SObj(ir.Sequential, _always_expr=SObj(ir.Concurrent, f_origin="always"), f_origin="process")
         c = SObj(ir.Context)
         it.current_ctx = c
         return c
+
+
+    def advance(self, it, frame, st):
+        if getattr(it, "case_stream", None):
+            # the loop body finished for the sequential context of a stream case: nothing was rejected
+            it.ctx.prove(QUAL + "#always-expression-is-a-separate-driver", False)
 
 
 class BlockLoop(C.LoopSpec):
@@ -285,10 +297,13 @@ for kind in KINDS:
             add_event_case(kind, view, access)
 
 
+def _must_reject(sx, *a):
+    sx.reject(AssertionError)
+
+
 def add_stream_case(name, stream, replay):
-    c = Case(name, [template_shape(), INFO, EMPTY, EMPTY], lambda sx, *a: C.ANY)
+    c = Case(name, [template_shape(), INFO, EMPTY, EMPTY], _must_reject)
     c.native = False
-    c.may_reject = AssertionError
     c.custom_replay = replay
     c.finding_key = name
 
@@ -299,7 +314,7 @@ def add_stream_case(name, stream, replay):
         it.current_ctx = None
 
     c.setup = setup
-    c.models = CASE_MODELS
+    c.models = [(ir.Context.__dict__["visit_objects"], stream_always_model), (ir.Sequential.__dict__["visit_objects"], stream_sequential_model)]
     con.cases.append(c)
 
 
